@@ -712,3 +712,21 @@ HARMLESS += [
     # file name computed before the directory is created
     dict(id="H-C19-cache-write-name-first", prop="C19", file=CA13, old="        let filename = self.path(tpe, id);\n        let filename_tmp = dir.join(id.to_hex().to_string() + \"-tmp-\");", new="        let filename_tmp = dir.join(id.to_hex().to_string() + \"-tmp-\");\n        let filename = self.path(tpe, id);"),
 ]
+
+RS13 = "crates/core/src/commands/restore.rs"
+MUTATIONS += [
+    # restore --dry-run creates the missing directories
+    dict(id="C14-dry-run-creates-dirs", prop="C14", file=RS13, old="                    debug!(\"to restore: {}\", path.display());\n                    if !dry_run {\n                        dest.create_dir(path)", new="                    debug!(\"to restore: {}\", path.display());\n                    {\n                        dest.create_dir(path)"),
+    # a file that exists in the destination is never planned (its content is not compared with the snapshot)
+    dict(id="C14-existing-file-not-planned", prop="C14", file=RS13, old="                // collect blobs needed for restoring\n                match (", new="                // collect blobs needed for restoring\n                if exists {\n                    return Ok(());\n                }\n                match ("),
+    # the first file of a hard-link group is skipped as well
+    dict(id="C14-first-hardlink-not-planned", prop="C14", file=RS13, old="                            _ = entry.insert(path.clone());\n                        }", new="                            _ = entry.insert(path.clone());\n                            return Ok(());\n                        }"),
+]
+HARMLESS += [
+    dict(id="H-C14-process-node-exists-first", prop="C14", file=RS13, old="                if exists {\n                    stats.dirs.modify += 1;\n                    trace!(\"existing dir {}\", path.display());\n                } else {", new="                if exists {\n                    trace!(\"existing dir {}\", path.display());\n                    stats.dirs.modify += 1;\n                } else {"),
+]
+
+MUTATIONS += [
+    # an unreadable cache entry makes the cached read_full fail although the backend has the file
+    dict(id="C19-cache-error-fails-read-full", prop="C19", file=CA13, old="            match self.cache.read_full(tpe, id) {\n                Ok(Some(data)) => return Ok(data),\n                Ok(None) => {}\n                Err(err) => warn!(\n                    \"Error in cache backend reading {tpe:?},{id}: {}\",\n                    err.display_log()\n                ),\n            }", new="            match self.cache.read_full(tpe, id) {\n                Ok(Some(data)) => return Ok(data),\n                Ok(None) => {}\n                Err(err) => return Err(err),\n            }"),
+]
